@@ -8,6 +8,7 @@ import (
 	"errors"
 	"fmt"
 	"io"
+	"runtime"
 	"slices"
 	"strings"
 	"testing"
@@ -59,6 +60,9 @@ type ScriptPlan struct {
 	GreaseNamesBadKey bool `json:"grease_names_bad_key,omitempty"`
 	// AlertWriteFails (refused hellos): writes to the client fail.
 	AlertWriteFails bool `json:"alert_write_fails,omitempty"`
+	// CtxEndsAtAlert (refused hellos): the NewConn context is cancelled at the
+	// moment the front starts writing to the client (the verdict is in by then).
+	CtxEndsAtAlert bool `json:"ctx_ends_at_alert,omitempty"`
 	// Prime: before the connection under test the process serves a connection
 	// under this other config.
 	Prime *KeySpec `json:"prime,omitempty"`
@@ -66,12 +70,12 @@ type ScriptPlan struct {
 	DupOuter bool `json:"dup_outer,omitempty"`
 	// FragmentLen (hellos without ECH / GREASE): pad the hello so that the
 	// record fragment has exactly this many octets.
-	FragmentLen int    `json:"fragment_len,omitempty"`
+	FragmentLen int `json:"fragment_len,omitempty"`
 	// InnerMsgLen (accepted hellos): an opaque extension of the compressed run is
 	// grown - in the outer and in the inner hello - until the reconstructed
 	// ClientHelloInner handshake message has exactly this many octets (2^14 is
 	// the most a plaintext record holds).
-	InnerMsgLen int `json:"inner_msg_len,omitempty"`
+	InnerMsgLen int    `json:"inner_msg_len,omitempty"`
 	RecVer      uint16 `json:"rec_ver"`
 	LegacyVer   uint16 `json:"legacy_ver,omitempty"`  // ClientHello.legacy_version of a plain hello (0 = 0x0303)
 	Compression []byte `json:"compression,omitempty"` // legacy_compression_methods of a plain hello (nil = {0})
@@ -803,6 +807,9 @@ var (
 	// scriptWriteFails: every write to the client-side transport fails (the
 	// client is gone or its window is shut for good).
 	scriptWriteFails bool
+	// scriptCtxEndsAtWrite: NewConn's context is cancelled as the transport's
+	// first Write begins.
+	scriptCtxEndsAtWrite bool
 )
 
 func runScriptW(keys []ech.Key, in []byte, chunks []int, readBuf int, afterNewConn []byte) (*scriptOutcome, *simnet.ScriptConn) {
@@ -813,12 +820,26 @@ func runScriptW(keys []ech.Key, in []byte, chunks []int, readBuf int, afterNewCo
 		sc.WriteErrAt = 0
 	}
 	hook, hookAfter := scriptHook, scriptHookAfter
-	scriptHook, scriptErrWithData, scriptWriteFails = nil, false, false
+	ctx, cancel := context.WithCancel(context.Background())
+	defer cancel()
+	if scriptCtxEndsAtWrite {
+		fired := false
+		sc.OnWrite = func() {
+			if !fired {
+				fired = true
+				cancel()
+				for i := 0; i < 50; i++ {
+					runtime.Gosched()
+				}
+			}
+		}
+	}
+	scriptHook, scriptErrWithData, scriptWriteFails, scriptCtxEndsAtWrite = nil, false, false, false
 	o := &scriptOutcome{}
 	var conn *ech.Conn
 	panicked, msg, site := core.Guard(func() {
 		var err error
-		conn, err = ech.NewConn(context.Background(), sc, keyOptions(keys)...)
+		conn, err = ech.NewConn(ctx, sc, keyOptions(keys)...)
 		o.err = err
 		if err != nil {
 			return
@@ -973,6 +994,7 @@ func executeScript(t *testing.T, prop string, seed uint64, p *ScriptPlan) *core.
 	}
 	scriptErrWithData = p.ErrWithData
 	scriptWriteFails = p.AlertWriteFails && p.Expect == "abort"
+	scriptCtxEndsAtWrite = p.CtxEndsAtAlert && p.Expect == "abort"
 	o, _ := runScriptW(b.keys, in, p.Chunks, p.ReadBuf, flight)
 	scriptHook = nil
 	if flight != nil {
